@@ -73,7 +73,21 @@ func (fr *frame) unlock(p value, write bool) {
 		m.readers--
 	}
 	s.release(fr.g, &m.clock)
-	s.yieldPoint(fr.g, "mutex unlock")
+}
+
+// atomicSync models the synchronisation of sync/atomic operations in the happens-before relation:
+// every atomic write releases, every atomic read acquires the object's clock.
+func (fr *frame) atomicSync(p value, write bool) {
+	pv, ok := p.(*value)
+	if !ok || pv == nil || fr.i.cur == nil || fr.g == nil {
+		return
+	}
+	c := fr.run().obj("atomic", p, func() any { return &syncClock{} }).(*syncClock)
+	s := fr.sched()
+	s.acquire(fr.g, c)
+	if write {
+		s.release(fr.g, c)
+	}
 }
 
 func structField(p value, idx int) *value {
@@ -109,7 +123,6 @@ func init() {
 	wgAdd := func(fr *frame, p value, d int) {
 		w := wg(fr, p)
 		s := fr.sched()
-		s.yieldPoint(fr.g, "WaitGroup.Add")
 		w.n += d
 		if d < 0 {
 			s.release(fr.g, &w.clock)
@@ -196,20 +209,23 @@ func init() {
 	// typed atomics
 	for _, tn := range []string{"Int32", "Int64", "Uint32", "Uint64", "Uintptr"} {
 		tn := tn
-		register("(*sync/atomic."+tn+").Load", func(fr *frame, a []value) value { return *atomicSlot(a[0]) })
-		register("(*sync/atomic."+tn+").Store", func(fr *frame, a []value) value { *atomicSlot(a[0]) = a[1]; return nil })
+		register("(*sync/atomic."+tn+").Load", func(fr *frame, a []value) value { fr.atomicSync(a[0], false); return *atomicSlot(a[0]) })
+		register("(*sync/atomic."+tn+").Store", func(fr *frame, a []value) value { fr.atomicSync(a[0], true); *atomicSlot(a[0]) = a[1]; return nil })
 		register("(*sync/atomic."+tn+").Add", func(fr *frame, a []value) value {
+			fr.atomicSync(a[0], true)
 			s := atomicSlot(a[0])
 			*s = binop(fr, token.ADD, nil, *s, a[1])
 			return *s
 		})
 		register("(*sync/atomic."+tn+").Swap", func(fr *frame, a []value) value {
+			fr.atomicSync(a[0], true)
 			s := atomicSlot(a[0])
 			old := *s
 			*s = a[1]
 			return old
 		})
 		register("(*sync/atomic."+tn+").CompareAndSwap", func(fr *frame, a []value) value {
+			fr.atomicSync(a[0], true)
 			s := atomicSlot(a[0])
 			if fr.truth(binop(fr, token.EQL, nil, *s, a[1])) {
 				*s = a[2]
@@ -218,8 +234,9 @@ func init() {
 			return false
 		})
 	}
-	register("(*sync/atomic.Bool).Load", func(fr *frame, a []value) value { return asInt64(*atomicSlot(a[0])) != 0 })
+	register("(*sync/atomic.Bool).Load", func(fr *frame, a []value) value { fr.atomicSync(a[0], false); return asInt64(*atomicSlot(a[0])) != 0 })
 	register("(*sync/atomic.Bool).Store", func(fr *frame, a []value) value {
+		fr.atomicSync(a[0], true)
 		if a[1].(bool) {
 			*atomicSlot(a[0]) = uint32(1)
 		} else {
@@ -228,6 +245,7 @@ func init() {
 		return nil
 	})
 	register("(*sync/atomic.Bool).Swap", func(fr *frame, a []value) value {
+		fr.atomicSync(a[0], true)
 		s := atomicSlot(a[0])
 		old := asInt64(*s) != 0
 		if a[1].(bool) {
@@ -238,6 +256,7 @@ func init() {
 		return old
 	})
 	register("(*sync/atomic.Bool).CompareAndSwap", func(fr *frame, a []value) value {
+		fr.atomicSync(a[0], true)
 		s := atomicSlot(a[0])
 		cur := asInt64(*s) != 0
 		if cur == a[1].(bool) {
@@ -250,15 +269,17 @@ func init() {
 		}
 		return false
 	})
-	register("(*sync/atomic.Value).Load", func(fr *frame, a []value) value { return *structField(a[0], 0) })
-	register("(*sync/atomic.Value).Store", func(fr *frame, a []value) value { *structField(a[0], 0) = a[1]; return nil })
+	register("(*sync/atomic.Value).Load", func(fr *frame, a []value) value { fr.atomicSync(a[0], false); return *structField(a[0], 0) })
+	register("(*sync/atomic.Value).Store", func(fr *frame, a []value) value { fr.atomicSync(a[0], true); *structField(a[0], 0) = a[1]; return nil })
 	register("(*sync/atomic.Value).Swap", func(fr *frame, a []value) value {
+		fr.atomicSync(a[0], true)
 		s := structField(a[0], 0)
 		old := *s
 		*s = a[1]
 		return old
 	})
 	register("(*sync/atomic.Value).CompareAndSwap", func(fr *frame, a []value) value {
+		fr.atomicSync(a[0], true)
 		s := structField(a[0], 0)
 		if fr.truth(equalsV(types.NewInterfaceType(nil, nil), *s, a[1])) {
 			*s = a[2]
@@ -267,23 +288,26 @@ func init() {
 		return false
 	})
 	register("(*sync/atomic.Pointer).Load", func(fr *frame, a []value) value {
+		fr.atomicSync(a[0], false)
 		v := *atomicSlot(a[0])
 		if p, ok := v.(*value); ok {
 			return p
 		}
 		return (*value)(nil)
 	})
-	register("(*sync/atomic.Pointer).Store", func(fr *frame, a []value) value { *atomicSlot(a[0]) = a[1]; return nil })
+	register("(*sync/atomic.Pointer).Store", func(fr *frame, a []value) value { fr.atomicSync(a[0], true); *atomicSlot(a[0]) = a[1]; return nil })
 	// function-style atomics
 	for _, tn := range []string{"Int32", "Int64", "Uint32", "Uint64", "Uintptr"} {
-		register("sync/atomic.Load"+tn, func(fr *frame, a []value) value { return *(a[0].(*value)) })
-		register("sync/atomic.Store"+tn, func(fr *frame, a []value) value { *(a[0].(*value)) = a[1]; return nil })
+		register("sync/atomic.Load"+tn, func(fr *frame, a []value) value { fr.atomicSync(a[0], false); return *(a[0].(*value)) })
+		register("sync/atomic.Store"+tn, func(fr *frame, a []value) value { fr.atomicSync(a[0], true); *(a[0].(*value)) = a[1]; return nil })
 		register("sync/atomic.Add"+tn, func(fr *frame, a []value) value {
+			fr.atomicSync(a[0], true)
 			p := a[0].(*value)
 			*p = binop(fr, token.ADD, nil, *p, a[1])
 			return *p
 		})
 		register("sync/atomic.CompareAndSwap"+tn, func(fr *frame, a []value) value {
+			fr.atomicSync(a[0], true)
 			p := a[0].(*value)
 			if fr.truth(binop(fr, token.EQL, nil, *p, a[1])) {
 				*p = a[2]
